@@ -1,8 +1,13 @@
-import sys, traceback
-sys.path.insert(0,'/verif')
-import contracts.C04_protocols as m
-try:
-    r=m.standin_protocols('quick',0); print({k:v for k,v in r.items() if k!='_fails'}); print(r['_fails'][:2])
-except Exception:
-    tb=traceback.format_exc().splitlines()
-    print('\n'.join([l for l in tb if 'C04_protocols' in l or 'Error' in l][:10]))
+import warnings; warnings.simplefilter('ignore')
+import cirq, numpy as np
+from contracts import qasm_reader as qr
+q=cirq.LineQubit(0)
+ops=[cirq.circuits.qasm_output.QasmUGate(theta=1, phi=0.3, lmda=1.6).on(q), cirq.PhasedXPowGate(phase_exponent=-0.10000000000000009, exponent=0.37).on(q), cirq.Ry(rads=0.5).on(q),(cirq.Y**1e-07).on(q),cirq.Rx(rads=0.777).on(q),cirq.global_phase_operation(1j)]
+for prec in (10,4):
+  for op in ops:
+    c=cirq.Circuit(op)
+    t=c.to_qasm(qubit_order=[q],precision=prec)
+    U=qr.unitary(qr.parse(t))
+    print(prec, str(op)[:30], qr.proportional(U,c.unitary(qubit_order=[q]),atol=1e-3), t.strip().split('\n')[-1])
+  c=cirq.Circuit(ops); U=qr.unitary(qr.parse(c.to_qasm(qubit_order=[q],precision=prec))); W=c.unitary(qubit_order=[q])
+  print(prec, qr.proportional(U,W,atol=1e-3), np.round(U,4).tolist(), np.round(W,4).tolist())
